@@ -145,9 +145,13 @@ func workerMain(t *testing.T) {
 	budget := time.Duration(envInt("VERIF_BUDGET_S", 30)) * time.Second
 	maxRuns := envInt("VERIF_MAXRUNS", 1<<30)
 	start := envInt("VERIF_START", wi)
+	fixed := false
 	if p.Fixed != nil {
-		if n := p.Fixed(tier); n > 0 && n < maxRuns {
-			maxRuns = n
+		if n := p.Fixed(tier); n > 0 {
+			fixed = true
+			if n < maxRuns {
+				maxRuns = n
+			}
 		}
 	}
 	known := loadKnown()
@@ -165,10 +169,10 @@ func workerMain(t *testing.T) {
 	lastStat := time.Now()
 	viols := 0
 	for j := start; j < maxRuns; j += wn {
-		if p.Fixed == nil && time.Since(begin) > budget {
+		if !fixed && time.Since(begin) > budget {
 			break
 		}
-		if p.Fixed != nil && time.Since(begin) > 20*budget {
+		if fixed && time.Since(begin) > 3*budget {
 			break
 		}
 		curJ = int64(j)
